@@ -598,6 +598,25 @@ class Interp:
             return self.call(e, path)
         if isinstance(e, ast.JoinedStr):
             return [(Opaque("fstring"), path)]
+        if isinstance(e, ast.ListComp) and len(e.generators) == 1 and not e.generators[0].ifs and isinstance(e.generators[0].iter, (ast.Tuple, ast.List)) and isinstance(e.generators[0].target, ast.Name) and len(e.generators[0].iter.elts) <= 8:
+            # [f(x) for x in (a, b, c)]  ==  (f(a), f(b), f(c))
+            tname = e.generators[0].target.id
+            res = [([], path)]
+            for el in e.generators[0].iter.elts:
+                nxt = []
+                for items, p in res:
+                    for xv, p2 in self.eval(el, p):
+                        p3 = p2.fork()
+                        saved = p3.env.get(tname, None)
+                        p3.env[tname] = xv
+                        for v, p4 in self.eval(e.elt, p3):
+                            if saved is None:
+                                p4.env.pop(tname, None)
+                            else:
+                                p4.env[tname] = saved
+                            nxt.append((items + [v], p4))
+                res = nxt
+            return [(Tup(items), p) for items, p in res]
         if isinstance(e, (ast.GeneratorExp, ast.ListComp, ast.Lambda, ast.List, ast.Dict, ast.Set)):
             return [(Opaque(e.__class__.__name__), path)]
         raise AnalysisError(f"abstract interpreter: unsupported expression {e.__class__.__name__}: {norm(e)}")
@@ -785,6 +804,38 @@ class Interp:
             for pos, kw, p in eval_args(path):
                 out.append((hooks[fname](pos, kw), p))
             return out
+        # <module constant dict of ints>.get(k, default): some value of the table, or the default
+        if isinstance(e.func, ast.Attribute) and e.func.attr == "get" and isinstance(e.func.value, ast.Name) and e.func.value.id not in path.env and len(e.args) == 2 and not e.keywords:
+            tbl = self.module.module_const(e.func.value.id) if hasattr(self.module, "module_const") else None
+            if isinstance(tbl, ast.Dict) and tbl.keys and all(isinstance(k, ast.Constant) and isinstance(k.value, int) for k in tbl.keys) and all(isinstance(v, ast.Constant) and isinstance(v.value, int) for v in tbl.values):
+                table = {k.value: v.value for k, v in zip(tbl.keys, tbl.values)}
+                for kv, p in self.eval(e.args[0], path):
+                    ki = as_iv(kv)
+                    if ki is None or not ki[2] or ki[1] - ki[0] > 4096:
+                        vals = list(table.values())
+                        for dv, p2 in self.eval(e.args[1], p):
+                            d = as_iv(dv)
+                            out.append((IntIv(min(vals + [int(d[0])]), max(vals + [int(d[1])])) if d is not None else Opaque("dict.get"), p2))
+                        continue
+                    lo, hi = int(ki[0]), int(ki[1])
+                    hits = sorted(k for k in table if lo <= k <= hi)
+                    for k in hits:
+                        pk = p.fork(f"{norm(e.args[0])} == {k}")
+                        self.refine(e.args[0], IntIv(k, k), pk)
+                        out.append((IntIv(table[k], table[k]), pk))
+                    # the key ranges that are not in the table: the default, evaluated with the key confined to that range
+                    start = lo
+                    ranges = []
+                    for k in hits + [hi + 1]:
+                        if start <= k - 1:
+                            ranges.append((start, k - 1))
+                        start = k + 1
+                    for a, b in ranges:
+                        pr = p.fork(f"{a} <= {norm(e.args[0])} <= {b}")
+                        self.refine(e.args[0], IntIv(a, b), pr)
+                        for dv, p2 in self.eval(e.args[1], pr):
+                            out.append((dv, p2))
+                return out
         # method calls on abstract receivers
         if isinstance(e.func, ast.Attribute):
             for recv, p0 in self.eval(e.func.value, path):
